@@ -649,7 +649,11 @@ func (r *RigR) issue(o *rOpState) {
 		var seek []*msgpb.MsgPosition
 		if !c.SeekNil {
 			for _, v := range c.SrcV {
-				seek = append(seek, &msgpb.MsgPosition{ChannelName: physOf(v), MsgID: SeqToMsgID(0), Timestamp: c.CreateTs})
+				ts := c.CreateTs
+				if c.ResumeTs > ts {
+					ts = c.ResumeTs
+				}
+				seek = append(seek, &msgpb.MsgPosition{ChannelName: physOf(v), MsgID: SeqToMsgID(0), Timestamp: ts})
 			}
 		}
 		go func() {
@@ -706,7 +710,7 @@ func (r *RigR) createDownstream(c *RColl, pre bool) {
 	for _, p := range c.Parts {
 		if p.Name == "_default" {
 			tc.Parts[p.Name] = &TgtPart{ID: p.TgtID, Visible: true}
-		} else if pre && p.PreTarget && p.State != "dropped" {
+		} else if pre && p.PreTarget {
 			tc.Parts[p.Name] = &TgtPart{ID: p.TgtID, Visible: true}
 		}
 	}
